@@ -1046,6 +1046,7 @@ std::string Generator::GeneratorImpl::generateOperatorCode(const std::string &op
     } else if (isRelationalOperator(ast)) {
         if (isRelationalOperator(astLeftChild)
             || isLogicalOperator(astLeftChild)
+            || ((astLeftChild->type() == AnalyserEquationAst::Type::NOT) && mProfile->hasNotOperator())
             || isPiecewiseStatement(astLeftChild)) {
             astLeftChildCode = "(" + astLeftChildCode + ")";
         }
